@@ -69,6 +69,21 @@ def generate(repo, emit, src, func_body):
         b = func_body(c, hdr)
         bodies[coq] = None if b is None else norm(b)
 
+    # translation of the five state-changing functions (and the two helpers they call) into Gallina
+    # state transformers: tools/exn_symex.py.  ExnProofs.v proves each equal to the model's function.
+    try:
+        import exn_symex
+        raw = {}
+        for cname, key in (('exception_try', 'exn_src_try'), ('exception_try_end', 'exn_src_try_end'),
+                           ('exception_try_fail', 'exn_src_try_fail'), ('exception_throw', 'exn_src_throw'),
+                           ('exception_catch', 'exn_src_catch'), ('Exception_Buffer', 'exn_src_buffer'),
+                           ('Exception_Len', 'exn_src_len')):
+            raw[cname] = bodies.get(key)
+        emit('exn_translation', exn_symex.gallina(raw))
+    except Exception as ex:          # outside the fragment: no definition = broken obligation
+        emit('exn_translation', None)
+        print('exn_translation: %s' % ex)
+
     cb = bodies.get('exn_src_catch')
     if cb is None:
         emit('clear_active_on_catch', None)
